@@ -618,7 +618,10 @@ def expand_shard(arg):
 
 def _expand_packed(arg):
     common.start_watchdog()
-    sh = expand(arg)
+    try:
+        sh = expand(arg)
+    except BaseException as e:       # never let a pool worker die silently
+        raise RuntimeError("expand failed: %s: %s" % (type(e).__name__, e))
     succ = sh.extra.pop("succ")
     for v in sh.viol:
         v["shard"] = ["mc.checks.c19", "expand_shard", arg]
